@@ -182,6 +182,8 @@ C05_SeqLevel == ReturnedSA => \A i \in 1..Len(syms) : LevelIdx(DecS(i).fmt.level
 C13_SeqTail == ReturnedSA /\ "Dev_PadBitsWhenAligned" \notin devs =>
    \A i \in 1..Len(syms) : LET p == StreamLen(syms[i].version, syms[i].segs) d == DecS(i).d.dbits IN
        SubSeq(d, p + 1, Len(d)) = IsoTail(syms[i].version, Cap(syms[i].version, syms[i].error), p)
+\* no behaviour gets stuck before an outcome: every non-terminal state has a successor (with the deviation actions enabled)
+SA_Progress == st \notin {"returned", "returned_overfull", "done"} => ENABLED SANext
 SAExport == (st \in {"returned", "returned_overfull", "done"}) =>
    PrintT(<<"VECTOR", ToJson([msg |-> msg, q |-> q, st |-> st, res |-> res, devs |-> devs, n |-> nsym, version |-> sver,
                                 syms |-> [i \in 1..Len(syms) |-> [version |-> syms[i].version, error |-> syms[i].error, mask |-> syms[i].mask, matrix |-> syms[i].M]]])>>)
